@@ -4,6 +4,7 @@ from . import procs
 from .c03 import step0_subst, sub_value
 
 ID = "C11"
+FRAME_SENSITIVE = True        # the statement relates several calls / call histories: a certain write to state that outlives a call is a violation even where the engine cannot follow its effect
 MIN_OBLIGATIONS = 200
 
 
@@ -74,6 +75,10 @@ def obligations(cx):
                       statement="the step-0 flux term does not mention area, feed amount or step length")
     cx.assume_note("coupling at step k is the induction hypothesis (m'_k = c m_k, intensive states equal); base case = prefix values; induction principle trusted")
     cx.assume_note("the time grid itself is excluded from the area/time statement; with a programme the statement does not apply (as in the property)")
+    from . import procs as _procs
+    _procs.frame_probe(cx)
+    cx.no_hidden_state(function=None)
+
 
 
 def replay_case(r):
